@@ -8,6 +8,7 @@ import threading
 
 sys.path.insert(0, os.path.join(os.path.dirname(os.path.abspath(__file__)), "..", "lib"))
 import diff_engine  # noqa: E402
+import uidcanon  # noqa: E402
 from gen_engine import dumps  # noqa: E402
 
 LEAN_MODULES = ["KmipModel.Props.C10", "KmipModel.Props.C10Engine"]
@@ -279,7 +280,7 @@ def run(ctx):
             good = True
             pos = len(prefix)
             for t in c:
-                a = outs[t][idx[t]]
+                a = uidcanon.canon_out(threads[t][idx[t]], outs[t][idx[t]])    # echoed identifier spellings
                 idx[t] += 1
                 b = mo[pos]
                 pos += 1
@@ -436,7 +437,7 @@ def replay(ctx, rep):
             pos = len(prefix)
             good = True
             for t in c:
-                a = outs[t][idx[t]]
+                a = uidcanon.canon_out(threads[t][idx[t]], outs[t][idx[t]])
                 idx[t] += 1
                 if "exception" in (a or {}) or diff_engine.obs_out(a) != diff_engine.obs_out(mo[pos]):
                     good = False
